@@ -186,19 +186,20 @@ InitState(v) ==
 Init == /\ \E v \in InitVols : S = InitState(v) /\ S0 = InitState(v)
         /\ wl = <<>> /\ out = "ok" /\ allok = TRUE /\ prevok = TRUE /\ tracked = TRUE /\ nodisp = TRUE /\ chk = AllTrue /\ depth = 0
 
-Next == /\ depth < MaxDepth
-        /\ \E o \in Ops :
-             LET r == Apply(S, o) IN
-             /\ S' = r.S
-             /\ wl' = wl \o r.recs
-             /\ out' = r.out
-             /\ allok' = (allok /\ r.out = "ok")
-             /\ prevok' = allok
-             /\ tracked' = (tracked /\ o.op \notin {"add", "remove"})
-             /\ nodisp' = (nodisp /\ o.op \notin {"add", "dispense"})
-             /\ chk' = StepChecks(S, o, r)
-             /\ depth' = depth + 1
-        /\ UNCHANGED S0
+\* one operation of the alphabet, tried in the current state (it may be rejected)
+Do(o) == LET r == Apply(S, o) IN
+         /\ S' = r.S
+         /\ wl' = wl \o r.recs
+         /\ out' = r.out
+         /\ allok' = (allok /\ r.out = "ok")
+         /\ prevok' = allok
+         /\ tracked' = (tracked /\ o.op \notin {"add", "remove"})
+         /\ nodisp' = (nodisp /\ o.op \notin {"add", "dispense"})
+         /\ chk' = StepChecks(S, o, r)
+         /\ depth' = depth + 1
+         /\ UNCHANGED S0
+
+Next == depth < MaxDepth /\ \E o \in Ops : Do(o)
 
 (***************************************************************************)
 (* Invariants                                                              *)
